@@ -1,11 +1,233 @@
 // Scenario families (DESIGN.md section 7 table).
+use super::super::monitors::common::ACME_TYPES;
 use super::super::plan::*;
 use super::super::prng::Rng;
 use super::base::*;
+use std::collections::BTreeMap;
 
 pub fn build(family: &str, rng: &mut Rng, index: u64) -> Option<Plan> {
 	match family {
 		"smoke" => Some(simple_plan(rng, 1 + (index % 2) as usize)),
+		"F2p" => f2p(index),
+		"F2n" => f2n(index),
 		_ => None,
 	}
+}
+
+/// decompose `index` over the given dimension sizes (first dimension varies slowest)
+pub fn grid(index: u64, dims: &[u64]) -> Option<Vec<u64>> {
+	let total: u64 = dims.iter().product();
+	if index >= total {
+		return None;
+	}
+	let mut rem = index;
+	let mut out = vec![0; dims.len()];
+	for i in (0..dims.len()).rev() {
+		out[i] = rem % dims[i];
+		rem /= dims[i];
+	}
+	Some(out)
+}
+
+fn ident(dns: &str, ch: &str) -> IdentCfg {
+	IdentCfg {
+		dns: Some(dns.into()),
+		ip: None,
+		challenge: ch.into(),
+		env: BTreeMap::new(),
+	}
+}
+
+/// The fixed base plan of the exhaustive grids: one certificate, two identifiers (http-01 and
+/// dns-01), P-256 keys, standard hooks, CA with default behaviour.  `variant` picks kp_reuse and
+/// whether a matching pair pre-exists (C03 needs all four).
+pub fn grid_base(variant: u64, attempts: u32) -> Plan {
+	let mut rng = Rng::new(0xBA5E ^ variant);
+	let (hooks, names) = std_hooks();
+	let kp_reuse = variant & 1 == 1;
+	let pre_pair = variant & 2 == 2;
+	let cert = CertCfg {
+		name: Some("grid".into()),
+		account: "acc".into(),
+		endpoint: "ep0".into(),
+		identifiers: vec![ident("a.grid.sim", "http-01"), ident("b.grid.sim", "dns-01")],
+		key_type: Some("ecdsa-p256".into()),
+		kp_reuse: Some(kp_reuse),
+		hooks: names,
+		..Default::default()
+	};
+	let mut world = world_cfg(&mut rng);
+	world.umask = 0o022;
+	if pre_pair {
+		world.pre_files = vec![
+			PreFile {
+				target: "pk:0".into(),
+				content: "key:ecdsa-p256".into(),
+				lifetime_s: 0,
+				mode: Some(0o600),
+			},
+			PreFile {
+				target: "crt:0".into(),
+				// expires in 10 days: inside the default 30-day renew_delay, so the daemon renews at once
+				content: "pair".into(),
+				lifetime_s: 10 * 86400,
+				mode: Some(0o644),
+			},
+		];
+	}
+	let mut sched = Sched::default();
+	sched.net_us = (100, 3000);
+	sched.fs_us = (1, 50);
+	sched.proc_ms = (1, 5);
+	sched.map_salt = variant;
+	Plan {
+		world,
+		config: Config {
+			global: Global::default(),
+			rate_limits: vec![],
+			endpoints: vec![EndpointCfg {
+				name: "ep0".into(),
+				ca: 0,
+				rate_limits: vec![],
+				tos_agreed: true,
+			}],
+			hooks,
+			groups: vec![],
+			accounts: vec![account("acc", "ecdsa-p256")],
+			certificates: vec![cert],
+		},
+		cas: vec![CaCfg {
+			host: "ca0.sim".into(),
+			knobs: Knobs::default(),
+		}],
+		ops: vec![Op::Run {
+			attempts,
+			max_virtual_s: 7200,
+			only: vec![],
+		}],
+		faults: vec![],
+		sched,
+		..Default::default()
+	}
+}
+
+/// POST positions of the grid base plan's first attempt: (class, nth transmission of that class)
+pub const POST_POSITIONS: [(&str, u64); 12] = [
+	("newAccount", 1),
+	("newOrder", 1),
+	("authz", 1),
+	("challenge", 1),
+	("authzPoll", 1),
+	("authz", 2),
+	("challenge", 2),
+	("authzPoll", 2),
+	("orderPollReady", 1),
+	("finalize", 1),
+	("orderPollValid", 1),
+	("certificate", 1),
+];
+
+pub const ALL_POSITIONS: [(&str, u64); 14] = [
+	("directory", 1),
+	("newNonce", 1),
+	("newAccount", 1),
+	("newOrder", 1),
+	("authz", 1),
+	("challenge", 1),
+	("authzPoll", 1),
+	("authz", 2),
+	("challenge", 2),
+	("authzPoll", 2),
+	("orderPollReady", 1),
+	("finalize", 1),
+	("orderPollValid", 1),
+	("certificate", 1),
+];
+
+fn status_for(typ: &str, salt: u64) -> u16 {
+	match typ {
+		"rateLimited" => 429,
+		"serverInternal" => [500, 503][(salt % 2) as usize],
+		"unauthorized" | "caa" | "orderNotReady" | "userActionRequired" => 403,
+		_ => 400,
+	}
+}
+
+/// the error answers of the grids: 24 ACME types, unknown type, absent type, non-JSON, empty,
+/// JSON that is not a problem document
+pub fn error_kinds() -> Vec<FaultKind> {
+	let mut v = vec![];
+	for (i, t) in ACME_TYPES.iter().enumerate() {
+		v.push(FaultKind::Acme {
+			typ: t.to_string(),
+			status: status_for(t, i as u64),
+			detail: Some(format!("injected {}", t)),
+		});
+	}
+	v.push(FaultKind::Acme {
+		typ: "somethingBrandNew".into(),
+		status: 400,
+		detail: Some("injected unknown type".into()),
+	});
+	v.push(FaultKind::Acme {
+		typ: String::new(),
+		status: 500,
+		detail: Some("injected typeless problem".into()),
+	});
+	v.push(FaultKind::Http {
+		status: 502,
+		body: "<html><body>Bad gateway</body></html>".into(),
+		content_type: "text/html".into(),
+	});
+	v.push(FaultKind::Http {
+		status: 503,
+		body: String::new(),
+		content_type: String::new(),
+	});
+	v.push(FaultKind::Http {
+		status: 404,
+		body: "{\"message\":\"not a problem document\"}".into(),
+		content_type: "application/json".into(),
+	});
+	v
+}
+
+/// F2p: every POST position x every error answer x run length 1..12 (exhaustive grid)
+fn f2p(index: u64) -> Option<Plan> {
+	let kinds = error_kinds();
+	let g = grid(index, &[POST_POSITIONS.len() as u64, kinds.len() as u64, 12])?;
+	let (class, nth) = POST_POSITIONS[g[0] as usize];
+	let mut p = grid_base(0, 1);
+	p.faults.push(Fault {
+		site: "net".into(),
+		ca: 0,
+		class: class.into(),
+		nth,
+		count: g[2] + 1,
+		kind: kinds[g[1] as usize].clone(),
+		..Default::default()
+	});
+	p.note = format!("F2p {}#{} x {} x run {}", class, nth, super::super::ca::fault_name(&kinds[g[1] as usize]), g[2] + 1);
+	Some(p)
+}
+
+/// F2n: objects that never reach the awaited status, at every polling phase, alone and combined
+/// with slow-but-finite objects (polls just below / at / above the bound)
+fn f2n(index: u64) -> Option<Plan> {
+	let polls = [0u32, 1, 5, 18, 19, 20, 21, 1000];
+	let g = grid(index, &[3, polls.len() as u64])?;
+	let mut p = grid_base(0, 1);
+	let n = polls[g[1] as usize];
+	match g[0] {
+		0 => p.cas[0].knobs.polls_authz = n,
+		1 => p.cas[0].knobs.polls_ready = n,
+		_ => p.cas[0].knobs.polls_valid = n,
+	}
+	p.ops = vec![Op::Run {
+		attempts: 1,
+		max_virtual_s: 86400,
+		only: vec![],
+	}];
+	p.note = format!("F2n phase {} stays non-final for {} polls", g[0], n);
+	Some(p)
 }
